@@ -1155,7 +1155,7 @@ theorem wf_ofLists {bins : List (Kind × Nat × Assoc)} {uns : List Kind} {ul : 
 
 /-! ### all token kinds (to decide statements of the form `∀ k : Kind, …` on a generated table) -/
 
-def Kind.all : List Kind := [.ASSIGN, .ASSIGNER, .BREAK, .BRIDGE, .SEND, .CONTROL, .STOP, .CONTINUE, .CREATE, .EVENT, .INSTANCE, .OF, .OBJECT, .DELETE, .FOR, .EACH, .IN, .GENERATE, .IF, .ELIF, .ELSE, .RELATE, .TO, .ACROSS, .USING, .RETURN, .SELECT, .ONE, .ANY, .MANY, .TRANSFORM, .UNRELATE, .FROM, .WHILE, .CLASS, .CREATOR, .RELATED, .BY, .INSTANCES, .WHERE, .CARDINALITY, .EMPTY, .FALSE, .NOT, .NOT_EMPTY, .TRUE, .AND, .OR, .PARAM, .RCVD_EVT, .SELF, .SELECTED, .LOOP, .THEN, .SEMICOLON, .EQUAL, .DOT, .DOUBLECOLON, .LPAREN, .RPAREN, .TIMES, .COLON, .COMMA, .ARROW, .LSQBR, .RSQBR, .ID, .NAMESPACE, .END_FOR, .END_IF, .END_WHILE, .TICKED_PHRASE, .QMARK, .FRACTION, .NUMBER, .STRING, .DOUBLEEQUAL, .NOTEQUAL, .LESSTHAN, .LE, .GT, .GE, .PLUS, .MINUS, .PIPE, .DIV, .MOD, .AMP, .CARET]
+-- `Kind.all` (the list of all token kinds) is in PyxModel/Oal/Expr.lean
 
 theorem Kind.mem_all (k : Kind) : k ∈ Kind.all := by
   cases k <;> decide
